@@ -8,11 +8,12 @@ import vf
 GROUP = "SqlGen"
 THEOREMS = ["C14_ident_confined", "C14_string_confined", "C14_filter_confined", "C14_confinement",
             "C14_insert_confined", "C14_update_confined", "C14_old_refuted",
-            "C14_filter_meaning_partial", "C14_filter_rows_partial", "C14_filter_meaning_refuted", "C14_gen_where_confined"]
+            "C14_filter_meaning_partial", "C14_filter_rows_partial", "C14_filter_meaning_refuted", "C14_gen_where_confined",
+            "C14_where_parses_partial", "C14_filter_text_meaning_partial"]
 META = {
     "group": GROUP,
     "technique": "Coq proof of lexical confinement of the generated SQL text over a Gallina model of the generators and of SQLite's tokenizer + vm_compute correspondence with the real generators + execution of the real text on SQLite under an authorizer",
-    "text": "Theorems C14_ident_confined / C14_string_confined (a quoted name or value is exactly one SQLite token whatever its bytes), C14_filter_confined (every filter token list, any spellings and classes, yields text that lexes to the template: one token per name/value), C14_confinement (SELECT/DELETE statement: columns, table, filters, sort, paging), C14_insert_confined and C14_update_confined are proved for all inputs without NUL bytes over the model of the repaired generators; C14_old_refuted keeps the three injections of the code before the fixes. The model is compared byte for byte with the real generators on every run, the real text is lexed against the template and executed on SQLite under an authorizer. partial: the meaning of a filter (which rows satisfy it) and the handlers around the generators are only observed, not proved",
+    "text": "Theorems C14_ident_confined / C14_string_confined (a quoted name or value is exactly one SQLite token whatever its bytes), C14_filter_confined (every filter token list, any spellings and classes, yields text that lexes to the template: one token per name/value), C14_confinement (SELECT/DELETE statement: columns, table, filters, sort, paging), C14_insert_confined and C14_update_confined are proved for all inputs without NUL bytes over the model of the repaired generators; C14_old_refuted keeps the three injections of the code before the fixes. Meaning of filters (Sem.v): for the documented filter language (EQ LT LE GT GE AND OR NOT HAS HASALL, EQ(col,.nil)) with a three-valued eval_filter, SQL expressions with SQLite's three-valued semantics (eval_sql) and where_ast = what SQL's precedence makes of the generated text, C14_filter_meaning_partial / C14_filter_rows_partial prove for all filters, rows and NULLs that the WHERE clause selects exactly the rows every filter selects whenever safe_where holds (no multi-value HAS under AND / NOT / next to another filter, no multi-value HASALL under NOT); C14_filter_meaning_refuted: AND(EQ(a,1),HAS(foo,'x','y')) selects a row that does not satisfy it (known finding filter-precedence, replayed on SQLite); C14_gen_where_confined: the text of gen_where lexes to its template. The models are compared byte for byte with the real generators on every run, the real text is lexed against the template, parsed to where_ast, and executed on SQLite (authorizer; rows returned vs eval_filter). C14_where_parses_partial / C14_filter_text_meaning_partial: for filters whose parts are all atoms (comparisons, null tests, AND/OR lists, NOT, single-value HAS/HASALL) the generated TEXT, lexed by the SQLite tokenizer model and parsed with SQL's precedence, is an expression that selects exactly the documented rows. partial: for multi-value HAS/HASALL the link text -> where_ast is only checked by vm_compute for every generated filter list; POSITION(v IN c) is given PostgreSQL's meaning (SQLite has no such function: there HAS filters are rejected by the database); the handlers around the generators are only observed",
     "note": "Trusted: Coq kernel; the hand-written model of SQLite's tokenizer (exponent / hex numbers are illegal tokens in it); strings.TrimSpace/ToLower/ToUpper modelled on ASCII (plus U+0131, U+017F); valid UTF-8 input; statement text reaches SQLite whole; the overlay harness and the Python comparison.",
 }
 
@@ -500,7 +501,7 @@ def meaning_stage(ck, binp, quick):
         return "VNull" if v is None else ("VInt (%d)" % v if isinstance(v, int) else "VText (%s)" % vf.vstr(v))
     tbl = "[" + ";".join("[(%s, %s); (%s, %s); (%s, %s); (%s, %s)]" % (
         vf.vstr("id"), cval(r[0]), vf.vstr("age"), cval(r[1]), vf.vstr("name"), cval(r[2]), vf.vstr("city"), cval(r[3])) for r in M_ROWS) + "]"
-    lines = ["From Common Require Import Base.", "From SqlGen Require Import Model Sem.", "Close Scope string_scope.", "Open Scope N_scope.",
+    lines = ["From Common Require Import Base.", "From SqlGen Require Import Model Sem SemParse.", "Close Scope string_scope.", "Open Scope N_scope.",
              "Definition tbl : list trow := %s." % tbl,
              "Definition mask (l : list Z) : Z := fold_left (fun a i => Z.lor a (Z.shiftl 1 i)) l 0%Z."]
     for i, (fs, o) in enumerate(zip(cases, obs)):
@@ -508,7 +509,7 @@ def meaning_stage(ck, binp, quick):
         lines.append("Definition t%d : str := %s." % (i, vf.vN(bytes.fromhex(o["text"]))))
     idx = range(len(cases))
     ex = {"text": "(%s : list nat)" % (" ++ ".join("(if str_eqb (fst (gen_where f%d)) t%d then [] else [%d%%nat])" % (i, i, i) for i in idx)),
-          "parse": "(%s : list nat)" % (" ++ ".join("(match parse_where (sql_lex t%d) with Some e => if sexpr_eqb e (where_ast f%d) then [] else [%d%%nat] | None => [%d%%nat] end)" % (i, i, i, i) for i in idx)),
+          "parse": "(%s : list nat)" % (" ++ ".join("(match parse_where (sql_lex t%d), parse_where2 (sql_lex t%d) with Some e, Some e2 => if sexpr_eqb e (where_ast f%d) && sexpr_eqb e2 (where_ast f%d) then [] else [%d%%nat] | _, _ => [%d%%nat] end)" % (i, i, i, i, i, i) for i in idx)),
           "doc": "([%s] : list Z)" % ";".join("mask (selected_ids tbl f%d)" % i for i in idx),
           "sql": "([%s] : list Z)" % ";".join("mask (sql_selected_ids tbl (where_ast f%d))" % i for i in idx),
           "safe": "(%s : list nat)" % (" ++ ".join("(if safe_where f%d then [] else [%d%%nat])" % (i, i) for i in idx))}
@@ -547,7 +548,8 @@ def run(ck):
     ck.cov["rule"] = ("requests: SELECT/DELETE statements (columns, table, user, provider, 0-3 filters, sort values, limit/start), "
                       "WHERE clauses, column lists, sort lists, paging, FullName, SQLEscape, INSERT and UPDATE statements; names drawn "
                       "from plain names and an adversarial pool (quotes, comments, semicolons, subqueries, count( specs, non-ASCII); "
-                      "filters from the documented grammar (depth <= 2), damaged well-formed filters and a random stream over '%s'. "
+                      "filters from the documented grammar (depth <= 2), damaged well-formed filters and a random stream over '%s'; "
+                      "plus well typed filter ASTs over table m1 (8 rows with NULLs and quotes) whose rows are compared with eval_filter. "
                       "distinct_nontrivial = distinct cases where the real generator returned a statement whose text contains at least "
                       "one user supplied name or value that needed quoting (a quote, space, comment marker, semicolon or non-name byte)" % MALPHA)
     ck.assume("SQLite tokenizer as modelled in coq/SqlGen/Model.v (quotes with doubling, brackets, comments, words, numbers without exponent/hex, operators, variables); NUL ends the input",
